@@ -88,6 +88,9 @@ var carriers = []carrierDef{
 	{"img-src", "img", "asset", "png", 1, false},
 	{"img-srcset1", "img", "asset", "png", 1, false},
 	{"img-srcset2", "img", "asset", "png", 2, false},
+	{"img-srcset2-tight", "img", "asset", "png", 2, false},        // candidates separated by a bare comma (what minifiers emit)
+	{"img-srcset2-newline", "img", "asset", "png", 2, false},      // ... by a comma, a newline and indentation
+	{"source-srcset2-tight", "source", "asset", "webp", 2, false}, // width descriptors, bare comma
 	{"script-src", "script", "asset", "js", 1, false},
 	{"link-stylesheet", "link", "asset", "css", 1, false},
 	{"link-icon", "link", "asset", "ico", 1, false},
@@ -150,6 +153,15 @@ func (c carrierDef) render(q string, refs []string) (string, bool) {
 	case "img-srcset2":
 		a, ok = attr("srcset", refs[0]+" 1x, "+refs[1]+" 2x", q)
 		return `<img src="/fallback.png" alt=x ` + a + ">", ok
+	case "img-srcset2-tight":
+		a, ok = attr("srcset", refs[0]+" 1x,"+refs[1]+" 2x", q)
+		return `<img src="/fallback.png" alt=x ` + a + ">", ok
+	case "img-srcset2-newline":
+		a, ok = attr("srcset", refs[0]+" 1x,\n      "+refs[1]+" 2x", q)
+		return `<img src="/fallback.png" alt=x ` + a + ">", ok
+	case "source-srcset2-tight":
+		a, ok = attr("srcset", refs[0]+" 480w,"+refs[1]+" 960w", q)
+		return "<picture><source " + a + ` type=image/webp><img src="/fallback.png" alt=x></picture>`, ok
 	case "script-src":
 		a, ok = attr("src", refs[0], q)
 		return "<script " + a + "></script>", ok
